@@ -85,10 +85,22 @@ def classify_source(pipe):
     return (not problems), "; ".join(problems), {"source": desc, "adapters": [a[0] for a in adapters][::-1]}
 
 
+# std readers whose Err is a genuine I/O failure, never a property of the bytes read (read_line / lines / read_to_string
+# are NOT here: they report invalid UTF-8 as an error)
+PURE_IO = {"std::io::BufRead::read_until", "std::io::BufRead::skip_until", "std::io::BufRead::fill_buf", "std::io::Read::read",
+           "std::io::Read::read_exact", "std::io::Read::read_to_end", "std::io::Write::write_all", "std::io::Write::flush",
+           "std::io::Write::write_fmt", "std::io::Write::write"}
+# ... and that return the number of bytes read, 0 meaning end of input
+COUNT_READERS = {"std::io::BufRead::read_until", "std::io::Read::read", "std::io::BufRead::skip_until"}
+
+
 def io_only_result(facts, term):
     """the call returns io::Result and neither it nor its crate callees build an io::Error themselves"""
     c = term["callee"]
     name = c.get("instance") or c.get("path")
+    p0 = c.get("path") or ""
+    if p0 in PURE_IO:
+        return True, ""
     if name not in facts.bodies:
         return False, "callee %s has no MIR" % name
     b = facts.bodies[name]
@@ -147,6 +159,26 @@ def run(facts, rep, tier):
             ctrl = r2
         else:
             ctrl = r
+        if ctrl[0] == "rv" and ctrl[1]["rv"]["k"] == "bin" and ctrl[1]["rv"]["op"] in ("Eq", "Ne"):
+            # `if reader.read_until(..)? == 0 { break }` : end of input reported as a zero byte count
+            from ..mirq import expr as _expr, show as _show
+            e = _expr(du, t["discr"])
+            zero = [x for x in (e[2], e[3]) if x == ("const", 0)]
+            other = [x for x in (e[2], e[3]) if x != ("const", 0)]
+            src = None
+            if zero and other:
+                o = other[0]
+                if o[0] == "path" and o[1][0] == "call":
+                    o = o[1]
+                if o[0] == "call" and o[1].split("::")[-1] in ("read_until", "read", "skip_until"):
+                    src = o[1]
+            ok = src is not None
+            rep.oblige(ok, ("exit-count", body.name))
+            rep.sample({"rule": "R13.1", "exit": "zero byte count of %s" % src, "ok": ok})
+            if not ok:
+                rep.add(Finding("R13.1", "%s : loop exit controlled by a comparison" % body.name,
+                                "a loop exit is controlled by %s, not by the line source or an I/O result" % _show(e)[:120], span_loc(t.get("span"))))
+            continue
         if ctrl[0] != "call":
             rep.oblige(False, ("exit", a, b))
             rep.add(Finding("R13.1", "%s : loop exit controlled by %s" % (body.name, ctrl[0]),
@@ -216,8 +248,48 @@ def run(facts, rep, tier):
         t = reg.loop_body.blocks[bi]["term"]
         if t["k"] == "call" and t["callee"].get("name") == "next" and reg.helper is None:
             exempt_calls.add(bi)
+    # reading the next line IS the line source: the std reader calls, and the reset of the buffer they fill (when that
+    # reset dominates the read, the buffer carries nothing from one line to the next)
+    def _mut_base(a):
+        """the local variable a `&mut` argument ultimately borrows (through reborrows)"""
+        pl = operand_place(a)
+        if pl is None:
+            return None
+        l = pl["local"]
+        for _ in range(8):
+            ds = pdu.whole_defs(l)
+            if len(ds) != 1 or ds[0][0] != "stmt":
+                return l
+            rv = ds[0][3]["rv"]
+            if rv["k"] == "ref":
+                l = rv["place"]["local"]
+                if not any(p["k"] == "deref" for p in rv["place"]["proj"]):
+                    return l
+                continue
+            if rv["k"] == "use" and operand_place(rv["x"]):
+                l = operand_place(rv["x"])["local"]
+                continue
+            return l
+        return l
+    buffers = {}
+    for bi in sorted(reg.blocks):
+        t = proc.blocks[bi]["term"]
+        if t["k"] == "call" and (t["callee"].get("path") or "") in PURE_IO and (t["callee"].get("path") or "").split("::")[-1] in (
+                "read_until", "read", "skip_until", "fill_buf"):
+            exempt_calls.add(bi)
+            for a in t["args"][1:]:
+                l = _mut_base(a)
+                if l is not None:
+                    buffers.setdefault(l, []).append(bi)
+    for bi in sorted(reg.blocks):
+        t = proc.blocks[bi]["term"]
+        if t["k"] == "call" and t["callee"].get("name") in ("clear",) and t["args"]:
+            l = _mut_base(t["args"][0])
+            if l in buffers and all(reg.cfg.dominates(bi, rb) for rb in buffers[l]):
+                exempt_calls.add(bi)
     display_only = display_only_fields(facts, reg.eff, "AppCounters")
     rep.extra["display_only_fields"] = sorted(display_only)
+    rep.extra["line_buffers"] = sorted(buffers)
     sites = []
     for bi in sorted(reg.blocks):
         blk = proc.blocks[bi]
